@@ -571,10 +571,13 @@ theorem C07_immutable_refuses (c : Coll) (hi : c.imm = true) (v : PyVal) (i : In
 theorem Coll.wf_toMutable (c : Coll) (h : c.wf) : c.toMutable.wf := h
 theorem Coll.wf_toImmutable (c : Coll) (h : c.wf) : c.toImmutable.wf := h
 
-/-- Sibling classes agree: the mutable and the immutable twin of a collection write, after JSON,
-    the SAME dictionary (the tuple of values of the immutable twin becomes a list). -/
+/-- Sibling classes agree: the mutable and the immutable twin of a collection write the SAME
+    dictionary (`to_dict` exports `list(self._values)`, a list copy, for both twins), before JSON already. -/
+theorem C07_twins_same_dictionary (c : Coll) : c.toImmutable.enc = c.toMutable.enc := rfl
+
+/-- ... hence also after JSON. -/
 theorem C07_twins_same_json (c : Coll) : jsonRT c.toImmutable.enc = jsonRT c.toMutable.enc := by
-  simp [Coll.enc, Coll.toImmutable, Coll.toMutable, jsonRT_dict, kv]
+  rw [C07_twins_same_dictionary]
 
 /-- The two conversions are inverse to each other on either twin, and idempotent. -/
 theorem C07_twin_conversions (c : Coll) :
